@@ -43,11 +43,14 @@ def in_bounds(props: Dict[str, Any], v: Any) -> bool:
     return True
 
 
-def consistent(props: Dict[str, Any]) -> bool:
-    """Does the property set admit conforming values at all (DESIGN C09, 'Reading')?"""
+def admits_conforming(props: Dict[str, Any]) -> bool:
+    """Does some value satisfy the declared constraints?  This is what gates the oracle: whenever a
+    conforming value exists the stored / reported / emitted values are judged.  (A declared maxLen
+    above 256 does not empty the set of conforming values, so such a set IS judged: it can only be
+    there because a refused override left it behind.)"""
     fmt = props["Format"]
     ml = props.get("maxLen")
-    if ml is not None and not (isinstance(ml, int) and 0 <= ml <= SPEC_ABSOLUTE_MAX_LEN):
+    if fmt == "string" and ml is not None and not (isinstance(ml, int) and ml >= 0):
         return False
     vv = valid_values(props)
     if fmt not in NUMERIC_FORMATS:
@@ -68,6 +71,16 @@ def consistent(props: Dict[str, Any]) -> bool:
         if not in_bounds(props, x):
             return False
     return True
+
+
+def consistent(props: Dict[str, Any]) -> bool:
+    """A property set a characteristic can be given (DESIGN C09, 'Reading'): it admits conforming
+    values and its maxLen is acceptable (0..256).  Used by the generators and compared with the
+    model's `consistent`."""
+    ml = props.get("maxLen")
+    if ml is not None and not (isinstance(ml, int) and 0 <= ml <= SPEC_ABSOLUTE_MAX_LEN):
+        return False
+    return admits_conforming(props)
 
 
 def nonconformity(props: Dict[str, Any], always_null: bool, allow_invalid: bool, v: Any) -> Optional[str]:
